@@ -23,7 +23,7 @@ func VX_C13_Redial(args []int) {
 	}
 	var log []string
 	pl := newVxPlugin("dialhook", &log)
-	p := NewPeer(PeerConfig{RedialTimes: rt}, pl)
+	p := NewPeer(PeerConfig{RedialTimes: rt, RedialInterval: vxRedialEvery}, pl)
 	var conns []*vxConn
 	attempts := 0
 	dialOK := true
@@ -139,7 +139,7 @@ func init() { vxRegister("VX_C13_LossWhileLaunching", VX_C13_LossWhileLaunching)
 func VX_C13_LossWhileLaunching(args []int) {
 	var log []string
 	pl := newVxPlugin("h", &log)
-	p := NewPeer(PeerConfig{RedialTimes: int32(args[0])}, pl)
+	p := NewPeer(PeerConfig{RedialTimes: int32(args[0]), RedialInterval: vxRedialEvery}, pl)
 	var conns []*vxConn
 	attempts := 0
 	VXSetDialHook(func(addr string) (net.Conn, error) {
